@@ -100,6 +100,14 @@ MUTANTS = [
 
 # weakened but still correct under the property (atomicity or validation alone suffices): must NOT alarm
 NOFALSE = [
+    # the cache update serialised by an advisory lock file (flock): between simulated processes such locks are emulated
+    # and waited for cooperatively
+    ("C16", "flock-around-the-cache-update", "bisturi/codegen.py",
+     "    def write_generated_module(self, folder, module_pathname, source_code):\n",
+     "    def write_generated_module(self, folder, module_pathname, source_code):\n        import fcntl\n        try:\n            os.makedirs(folder, exist_ok=True)\n            lock_file = open(os.path.join(folder, '.lock'), 'a')\n        except OSError:\n            return self._write_generated_module(folder, module_pathname, source_code)\n        with lock_file:\n            fcntl.flock(lock_file, fcntl.LOCK_EX)\n            try:\n                return self._write_generated_module(folder, module_pathname, source_code)\n            finally:\n                fcntl.flock(lock_file, fcntl.LOCK_UN)\n\n    def _write_generated_module(self, folder, module_pathname, source_code):\n"),
+    ("C15", "flock-around-the-cache-update", "bisturi/codegen.py",
+     "    def write_generated_module(self, folder, module_pathname, source_code):\n",
+     "    def write_generated_module(self, folder, module_pathname, source_code):\n        import fcntl\n        try:\n            os.makedirs(folder, exist_ok=True)\n            lock_file = open(os.path.join(folder, '.lock'), 'a')\n        except OSError:\n            return self._write_generated_module(folder, module_pathname, source_code)\n        with lock_file:\n            fcntl.flock(lock_file, fcntl.LOCK_EX)\n            try:\n                return self._write_generated_module(folder, module_pathname, source_code)\n            finally:\n                fcntl.flock(lock_file, fcntl.LOCK_UN)\n\n    def _write_generated_module(self, folder, module_pathname, source_code):\n"),
     # the path of the defining file ends up in the generated code (an error message): the twin lives elsewhere
     ("C15", "defining-path-in-generated-code", [
         ("bisturi/codegen.py", "def unpack_impl(pkt, raw, offset, **k):\n   k['innermost-pkt-pos'] = offset\n",
